@@ -1267,6 +1267,9 @@ class Evaluator(object):
             return ("new", cname, tuple(args), tuple(sorted(kwargs.items())))
         if t == "bound":
             return self.call_method(fv[1], fv[2], args, kwargs, st, frame, node)
+        if t == "attr" and len(fv) == 3 and isinstance(fv[2], str) and not isinstance(getattr(node, "func", None), ast.Attribute):
+            # f = x.method; f(a)   is   x.method(a)
+            return self.call_method(fv[1], fv[2], args, kwargs, st, frame, node)
         if t == "fld" and (fv[1] == SELF or self.ntype(fv[1], frame) is not None) and fv[2] not in ("stack", "_rb", "_algo", "model", "pred"):
             ev = Event("call", recv=fv[1], name=fv[2], args=args, kwargs=kwargs, extra="fieldcall")
             self.emit(ev, node, st, frame)
